@@ -214,8 +214,10 @@ class PixCoord:
         separation : `numpy.array`
             The separation in pixels.
         """
-        dx = other.x - self.x
-        dy = other.y - self.y
+        # subtract in float so that narrow or unsigned integer coordinate
+        # arrays cannot wrap around
+        dx = np.subtract(other.x, self.x, dtype=float)
+        dy = np.subtract(other.y, self.y, dtype=float)
         return np.hypot(dx, dy)
 
     @property
@@ -243,8 +245,10 @@ class PixCoord:
         coord : `PixCoord`
             The rotated coordinates (which is an independent copy).
         """
-        dx = self.x - center.x
-        dy = self.y - center.y
+        # subtract in float so that narrow or unsigned integer coordinate
+        # arrays cannot wrap around
+        dx = np.subtract(self.x, center.x, dtype=float)
+        dy = np.subtract(self.y, center.y, dtype=float)
 
         # apply the rotation matrix [[cosa, -sina], [sina, cosa]]
         # element-wise so that coordinates of any shape are supported
